@@ -125,7 +125,16 @@ func runCodec(t *simrt.Tape, keep bool) simrt.Outcome {
 	// UTF-8; known findings), in other runs than the carriage returns so that each difference stands alone
 	odd := !cr && t.Prob(1, 10)
 	rs := genResults(r, n, simcommon.GenOpts{NoCR: !cr, OddHeaders: odd})
-	r.log.Addf("records %d cr=%v odd-header-values=%v", n, cr, odd)
+	big := -1
+	if n > 0 && t.Prob(1, 30) {
+		// one record beyond a megabyte (a large response body), without headers, somewhere in the sequence: buffers
+		// that grow with the largest record are let go of and set up again behind it
+		big = t.Choose(n)
+		rs[big].Body = bytes.Repeat([]byte{byte('a' + t.Choose(26))}, 1<<20+t.Choose(1<<20))
+		rs[big].Headers = nil
+		r.stats["probe.record-beyond-a-megabyte"]++
+	}
+	r.log.Addf("records %d cr=%v odd-header-values=%v big=%d", n, cr, odd, big)
 	writesPerEncode := map[string]int{}
 	for _, f := range formats {
 		file, _, ok := encodeAll(r, "C07", f, rs)
